@@ -310,3 +310,19 @@ def ref_dpapi_ng_blob(key_identifier, sid, enc_cek, enc_content, content_params,
     enveloped = der_seq(bytes([2, 1, 2]), der_set(kekri), der_seq(*eci_parts))
     ci = der_seq(der_oid("1.2.840.113549.1.7.3"), der_ctx(0, True, enveloped))
     return cat(ci, b"" if in_envelope else enc_content)
+
+
+# ------------------------------------------------------------------------------------------------ RFC 5114 section 2.3 (2048-bit MODP group with 256-bit prime order subgroup)
+# transcribed from the RFC; the transcription is self-checking: g has order q in Z_p* (g^q = 1 mod p, q | p-1), which a typo would destroy
+RFC5114_2_3_P = int(
+    "87A8E61DB4B6663CFFBBD19C651959998CEEF608660DD0F25D2CEED4435E3B00E00DF8F1D61957D4FAF7DF4561B2AA3016C3D91134096FAA3BF4296D830E9A7C"
+    "209E0C6497517ABD5A8A9D306BCF67ED91F9E6725B4758C022E0B1EF4275BF7B6C5BFC11D45F9088B941F54EB1E59BB8BC39A0BF12307F5C4FDB70C581B23F76"
+    "B63ACAE1CAA6B7902D52526735488A0EF13C6D9A51BFA4AB3AD8347796524D8EF6A167B5A41825D967E144E5140564251CCACB83E6B486F6B3CA3F7971506026"
+    "C0B857F689962856DED4010ABD0BE621C3A3960A54E710C375F26375D7014103A4B54330C198AF126116D2276E11715F693877FAD7EF09CADB094AE91E1A1597", 16)
+RFC5114_2_3_G = int(
+    "3FB32C9B73134D0B2E77506660EDBD484CA7B18F21EF205407F4793A1A0BA12510DBC15077BE463FFF4FED4AAC0BB555BE3A6C1B0C6B47B1BC3773BF7E8C6F62"
+    "901228F8C28CBB18A55AE31341000A650196F931C77A57F2DDF463E5E9EC144B777DE62AAAB8A8628AC376D282D6ED3864E67982428EBC831D14348F6F2F9193"
+    "B5045AF2767164E1DFC967C1FB3F2E55A4BD1BFFE83B9C80D052B985D182EA0ADB2A3B7313D3FE14C8484B1E052588B9B7D2BBD2DF016199ECD06E1557CD0915"
+    "B3353BBB64E0EC377FD028370DF92B52C7891428CDC67EB6184B523D1DB246C32F63078490F00EF8D647D148D47954515E2327CFEF98C582664B4C0F6CC41659", 16)
+RFC5114_2_3_Q = int("8CF83642A709A097B447997640129DA299B1A47D1EB3750BA308B0FE64F5FBD3", 16)
+assert pow(RFC5114_2_3_G, RFC5114_2_3_Q, RFC5114_2_3_P) == 1 and (RFC5114_2_3_P - 1) % RFC5114_2_3_Q == 0 and RFC5114_2_3_P.bit_length() == 2048
